@@ -831,6 +831,10 @@ fn run_inner(t: &[&str]) -> Option<String> {
 }
 
 pub fn run_line(line: &str) -> String {
+    // seq A ;; B ;; ...: the calls one after the other on this thread, all results
+    if let Some(rest) = line.strip_prefix("seq ") {
+        return rest.split(" ;; ").map(|l| format!("[{}]", run_line(l.trim()))).collect::<Vec<_>>().join(" ;; ");
+    }
     let toks: Vec<&str> = line.split_whitespace().collect();
     if toks.is_empty() {
         return "bad-op".to_string();
